@@ -197,7 +197,7 @@ def main(ck):
                 culprit = stmt_op(stmts.get(n, '')) if shape == 'flat' else (ops[-1] if ops else '?')
                 if shape == 'nested' and why.startswith('null'):
                     # operators that yield null on a non-null operand (known: the predicted nullability ignores them)
-                    culprit = next(({'zip_mod': 'mod'}.get(o, o) for o in ops if o in ('mod', 'zip_mod', 'power')), culprit)
+                    culprit = next((('mod' if 'mod' in o else 'power') for o in ops if o in ('mod', 'zip_mod', 'power') or o.startswith('irr_pow')), culprit)
                 key = 'nonconforming-result:%s:%s:%s' % (shape, why.split(' ')[0].rstrip(':'), culprit)
                 if shape == 'nested' and (why.startswith('data columns') or why.startswith('components')):
                     key = 'nested-expression:result-columns-differ-from-components'
